@@ -19,6 +19,7 @@ from asimap import __version__
 from .auth import PWUser, authenticate
 from .constants import SPECIAL_USE_ATTR_VALUES
 from .exceptions import AuthenticationException, Bad, MailboxInconsistency, No
+from .fetch import quoted
 from .mbox import Mailbox, NoSuchMailbox
 from .parse import (
     IMAPClientCommand,
@@ -976,7 +977,7 @@ class Authenticated(BaseClientHandler):
             * LIST (\\HasChildren) "/" "projects" ("CHILDINFO" ("SUBSCRIBED"))
         """
         attrs_str = " ".join(sorted(attributes))
-        line = f'* LIST ({attrs_str}) "/" "{mbox_name}"'
+        line = f'* LIST ({attrs_str}) "/" {quoted(mbox_name)}'
         if child_info:
             criteria = " ".join(f'"{c}"' for c in sorted(child_info))
             line += f' ("CHILDINFO" ({criteria}))'
@@ -1019,7 +1020,7 @@ class Authenticated(BaseClientHandler):
                 case StatusAtt.UNSEEN:
                     result.append(f"UNSEEN {len(mbox.sequences['unseen'])}")
 
-        return f'* STATUS "{mbox_name}" ({" ".join(result)})\r\n'
+        return f'* STATUS {quoted(mbox_name)} ({" ".join(result)})\r\n'
 
     ####################################################################
     #
@@ -1145,7 +1146,7 @@ class Authenticated(BaseClientHandler):
 
             if lsub:
                 attrs_str = " ".join(sorted(attributes))
-                msg = f'* LSUB ({attrs_str}) "/" "{mbox_name}"\r\n'
+                msg = f'* LSUB ({attrs_str}) "/" {quoted(mbox_name)}\r\n'
             else:
                 msg = self._fmt_list_response(mbox_name, attributes, child_info)
             await self.client.push(msg)
@@ -1209,7 +1210,7 @@ class Authenticated(BaseClientHandler):
                         result.append(f"UNSEEN {len(mbox.sequences['unseen'])}")
 
         await self.client.push(
-            f'* STATUS "{cmd.mailbox_name}" ({" ".join(result)})\r\n'
+            f'* STATUS {quoted(cmd.mailbox_name)} ({" ".join(result)})\r\n'
         )
 
     ##################################################################
